@@ -222,6 +222,10 @@ def gen(ctx):
 # exact helpers
 # ---------------------------------------------------------------------------------------------------------
 
+def pp(p):
+    return "(%s,%s)" % (fr(p[0]), fr(p[1]))
+
+
 def fr(q):
     q = F(q)
     return str(q.numerator) if q.denominator == 1 else "%d/%d" % (q.numerator, q.denominator)
@@ -321,8 +325,10 @@ def gen_case(rng, small=False):
     Xs = [[rng.randrange(-3, 4) for _ in range(3)] + [rng.randrange(-vr, vr + 1) for _ in range(3)] for _ in range(ns)]
     tu = None if rng.random() < 0.4 else [rng.randrange(0, 50) for _ in range(nu)]
     ts = None if rng.random() < 0.4 else [rng.randrange(0, 50) for _ in range(ns)]
-    return {"pu": pu, "ps": ps, "Xu": Xu, "Xs": Xs, "tu": tu, "ts": ts, "eps": rng.choice(EPS_SET),
-            "dv_tol": rng.choice(TOL_SET), "bal_tol": rng.choice(TOL_SET), "style": style}
+    eps = rng.choice(EPS_SET[2:]) if rng.random() < 0.75 else rng.choice(EPS_SET)
+    dv_tol = rng.choice(TOL_SET[4:]) if rng.random() < 0.75 else rng.choice(TOL_SET)
+    return {"pu": pu, "ps": ps, "Xu": Xu, "Xs": Xs, "tu": tu, "ts": ts, "eps": eps,
+            "dv_tol": dv_tol, "bal_tol": rng.choice(TOL_SET), "style": style}
 
 
 def case_lines(c, max_len=F(10 ** 9)):
@@ -494,21 +500,30 @@ def direct_check(c, results, rel=1e-12):
             # P, Q are recovered from the reported states' parameters when the segments are non-degenerate:
             # check via the necessary condition  dist(point, seg a) = dist(point, seg b) = sqrt(dmin)/2  and
             # (when the minimiser is unique) against the exact midpoint.
+            if rel > 1e-10:
+                # float-valued clouds: the interior stationary point is ill-conditioned for nearly parallel segments
+                # (relative error ~ 1e-16 * A*C/den); such pairs are left to the exact lattice stream
+                ux_, uy_ = float(a1[0]) - float(a0[0]), float(a1[1]) - float(a0[1])
+                vx_, vy_ = float(b1[0]) - float(b0[0]), float(b1[1]) - float(b0[1])
+                cr_ = ux_ * vy_ - uy_ * vx_
+                if cr_ * cr_ < 1e-6 * (ux_ * ux_ + uy_ * uy_) * (vx_ * vx_ + vy_ * vy_):
+                    continue
+            ptol = 1e-9 if rel <= 1e-10 else 1e-7
             uniq = unique_minimiser(a0, a1, b0, b1)
             if uniq is not None:
                 want = ((uniq[0][0] + uniq[1][0]) / 2, (uniq[0][1] + uniq[1][1]) / 2)
-                if not (abs(pt[0] - float(want[0])) <= 1e-9 * (1 + abs(float(want[0]))) and abs(pt[1] - float(want[1])) <= 1e-9 * (1 + abs(float(want[1])))):
+                if not (abs(pt[0] - float(want[0])) <= ptol * (1 + abs(float(want[0]))) and abs(pt[1] - float(want[1])) <= ptol * (1 + abs(float(want[1])))):
                     bad.append(("point-midpoint", "pair (%d,%d): point %r is not the midpoint %s of the closest points of segments %s-%s and %s-%s"
-                                % (i, j, pt, (fr(want[0]), fr(want[1])), a0, a1, b0, b1)))
+                                % (i, j, pt, (fr(want[0]), fr(want[1])), pp(a0), pp(a1), pp(b0), pp(b1))))
             else:
                 # non-unique minimiser (parallel overlap): point must lie at distance sqrt(dmin)/2 from both segments
                 P = (F(pt[0]), F(pt[1]))
                 da = seg_min_d2(P, P, a0, a1)
                 db = seg_min_d2(P, P, b0, b1)
                 want = float(dmin) / 4.0
-                if not (abs(float(da) - want) <= 1e-9 * (1 + want) and abs(float(db) - want) <= 1e-9 * (1 + want)):
+                if not (abs(float(da) - want) <= ptol * (1 + want) and abs(float(db) - want) <= ptol * (1 + want)):
                     bad.append(("point-midpoint", "pair (%d,%d): point %r is not midway between segments %s-%s and %s-%s (min dist^2 %s)"
-                                % (i, j, pt, a0, a1, b0, b1, fr(dmin))))
+                                % (i, j, pt, pp(a0), pp(a1), pp(b0), pp(b1), fr(dmin))))
     return bad
 
 
@@ -638,6 +653,15 @@ def ambiguous(c, model_all_pairs_dv2):
     return False
 
 
+def viol(ctx, key, what, replay):
+    """one concrete violation per input class (key), at most 8 per run"""
+    seen = ctx.extra.setdefault("violation_keys", [])
+    if key in seen or len(seen) >= 8:
+        return
+    seen.append(key)
+    ctx.violation(key, what, replay)
+
+
 def broken(ctx, name, msg):
     if not any(n == name for n, _ in ctx.broken):
         ctx.broken.append((name, msg))
@@ -647,7 +671,7 @@ def broken(ctx, name, msg):
 def report_direct(ctx, c, results, where):
     bad = direct_check(c, results)
     for key, msg in bad[:3]:
-        ctx.violation("%s:%s" % (where, key), msg, {"kind": "run", "where": where, "input": jsonable(c), "clause": key,
+        viol(ctx, "%s:%s" % (where, key), msg, {"kind": "run", "where": where, "input": jsonable(c), "clause": key,
                                                     "observed": [describe(r) for r in results][:8]})
     return bad
 
@@ -675,12 +699,19 @@ def corr_run(ctx, cases, use_pipeline=False, name="correspondence:backend.run"):
         considered = int(hdr[3])
         model = [parse_conn(l) for l in out[pos + 1: pos + 1 + n]]
         pos += 1 + n
-        if use_pipeline:
-            results, src, tgt = real_solve(c)
-            meta = None
-        else:
-            resp = real_run(c)
-            results, meta = list(resp.results), resp.metadata
+        try:
+            if use_pipeline:
+                results, src, tgt = real_solve(c)
+                meta = None
+            else:
+                resp = real_run(c)
+                results, meta = list(resp.results), resp.metadata
+        except Exception as e:  # the real code must not raise on a well-formed request
+            ok = False
+            nbad += 1
+            ctx.case(key=("run-exception", type(e).__name__), kind="run:exception")
+            broken(ctx, name, "real code raised %r on input %r" % (e, jsonable(c)))
+            continue
         nontriv = len(results) > 0
         ctx.case(key=("run", c["style"], len(c["pu"]), len(c["ps"]), len(results), tuple(sorted((m["seg"] is not None) for m in model)),
                       tuple(m["ballistic"] for m in model)),
@@ -753,7 +784,7 @@ def corr_parts(ctx, cases):
         eps2 = F(c["eps"]) ** 2
         want = ["%d,%d" % (i, j) for i in range(len(c["pu"])) for j in range(len(c["ps"])) if d2q(c["pu"][i], c["ps"][j]) <= eps2]
         if got != want:
-            ctx.violation("radpair:pairs-array", "_radpair2d returns %r, in-radius pairs are %r" % (got, want),
+            viol(ctx, "radpair:pairs-array", "_radpair2d returns %r, in-radius pairs are %r" % (got, want),
                           {"kind": "radpair", "input": jsonable(c), "expected": want, "observed": got})
         for pts, arr, nn_m, tag in ((c["pu"], pu, nnu_m, "u"), (c["ps"], ps, nns_m, "s")):
             nn = B._nearest_neighbor_2d(arr).tolist() if len(pts) >= 1 else []
@@ -763,7 +794,7 @@ def corr_parts(ctx, cases):
             for i, j in enumerate(nn):
                 w = first_nn(pts, i)
                 if (w < 0) != (j < 0) or (j >= 0 and (j == i or d2q(pts[i], pts[j]) != d2q(pts[i], pts[w]))):
-                    ctx.violation("nearest-neighbor", "nearest neighbour of point %d is reported as %d, brute force %d" % (i, j, w),
+                    viol(ctx, "nearest-neighbor", "nearest neighbour of point %d is reported as %d, brute force %d" % (i, j, w),
                                   {"kind": "nn", "points": [[fr(v) for v in p] for p in pts], "observed": nn})
                     break
         # refinement on arbitrary pairs with explicit max_seg_len
@@ -825,6 +856,7 @@ def corr_closest(ctx, segs, name="correspondence:closest_points_on_segments_2d")
             fns.append((B._closest_points_on_segments_2d.py_func, "py"))
         for fn, tag in fns:
             r = closest_real(fn, s)
+            ctx.traces_validated += 1  # traced closestGen (run by the driver) vs the real routine
             if not all(same(x, q, ex) for x, q in zip(r, gen)):
                 ok = False
                 broken(ctx, name, "%s returns %r, model %r on segments %r" % (tag, tuple(float(x) for x in r), [fr(x) for x in gen], [fr(v) for v in s]))
@@ -839,9 +871,9 @@ def corr_closest(ctx, segs, name="correspondence:closest_points_on_segments_2d")
                     and float(d) <= float(dmin) + 1e-9 * scale):
                 nviol += 1
                 if nviol <= 3:
-                    ctx.violation("closest:%s" % cls,
+                    viol(ctx, "closest:%s" % cls,
                                   "closest points of segments %s-%s and %s-%s: returned s=%r t=%r P=(%r,%r) Q=(%r,%r) at distance^2 %r, true minimum %s"
-                                  % (a0, a1, b0, b1, sv, tv, px, py, qx, qy, float(d), fr(dmin)),
+                                  % (pp(a0), pp(a1), pp(b0), pp(b1), sv, tv, px, py, qx, qy, float(d), fr(dmin)),
                                   {"kind": "closest", "segments": [fr(v) for v in s], "expected_min_dist2": fr(dmin),
                                    "observed": [sv, tv, px, py, qx, qy], "impl": tag})
     if ok:
@@ -887,7 +919,7 @@ def float_search(ctx, n):
         ctx.case(key=("float", c["style"], len(c["pu"]), len(c["ps"]), len(results)), nontrivial=len(results) > 0, kind=c["style"])
         bad = direct_check(c, results, rel=1e-9)
         for key, msg in bad[:2]:
-            ctx.violation("run-float:%s" % key, msg, {"kind": "run-float", "input": jsonable_f(c), "clause": key,
+            viol(ctx, "run-float:%s" % key, msg, {"kind": "run-float", "input": jsonable_f(c), "clause": key,
                                                       "observed": [describe(r) for r in results][:8]})
 
 
@@ -942,7 +974,7 @@ def random_segments(rng, n):
 # ---------------------------------------------------------------------------------------------------------
 
 PROPS = ["HitenModel.Props.C19"]
-SRC = ["HitenModel.Props.C19", "HitenModel.Lemmas.C19", "HitenModel.Core.C19", "HitenModel.Gen.C19"]
+SRC = ["HitenModel.Props.C19", "HitenModel.Lemmas.C19", "HitenModel.Lemmas.C19Pairs", "HitenModel.Core.C19", "HitenModel.Gen.C19"]
 
 
 def run(ctx):
@@ -958,10 +990,9 @@ def run(ctx):
     th = ctx.thorough()
     rng = ctx.rng
     # 1. closest points: exhaustive 3x3 grid (6561 segment pairs) + random lattice/half-lattice segments
-    segs = list(grid_segments(3)) + random_segments(rng, 6000 if th else 1500)
+    segs = list(grid_segments(3)) + random_segments(rng, 8000 if th else 1500)
     if th:
-        allg4 = list(grid_segments(4))
-        segs += rng.sample(allg4, 12000)
+        segs += list(grid_segments(4))  # every pair of segments on the 4x4 grid (65536)
     try:
         for k in range(0, len(segs), 4000):
             corr_closest(ctx, segs[k:k + 4000])
@@ -970,18 +1001,18 @@ def run(ctx):
         broken(ctx, "correspondence:closest_points_on_segments_2d", "driver failed: %s" % str(e)[-800:])
         direct_only_closest(ctx, segs)
     # 2. whole backend on lattice clouds
-    cases = [gen_case(rng, small=True) for _ in range(1500 if th else 500)] + [gen_case(rng) for _ in range(3000 if th else 900)]
+    cases = [gen_case(rng, small=True) for _ in range(3000 if th else 500)] + [gen_case(rng) for _ in range(6000 if th else 900)]
     try:
         for k in range(0, len(cases), 700):
             corr_run(ctx, cases[k:k + 700])
         ctx.log("backend.run correspondence on %d clouds done" % len(cases))
-        pcs = [gen_case(rng) for _ in range(120 if th else 40)]
+        pcs = [gen_case(rng) for _ in range(200 if th else 40)]
         for c in pcs:  # ConnectionOptions rejects non-positive values
             for k in ("eps", "dv_tol", "bal_tol"):
                 if c[k] <= 0:
                     c[k] = F(1, 2)
         corr_run(ctx, pcs, use_pipeline=True, name="correspondence:ConnectionPipeline.solve")
-        parts = [gen_case(rng, small=(k % 3 == 0)) for k in range(1200 if th else 400)]
+        parts = [gen_case(rng, small=(k % 3 == 0)) for k in range(2400 if th else 400)]
         corr_parts(ctx, parts)
         ctx.log("kernel-by-kernel correspondence on %d clouds done" % len(parts))
     except RuntimeError as e:
@@ -989,7 +1020,7 @@ def run(ctx):
         for c in cases:
             report_direct(ctx, c, list(real_run(c).results), "run")
     # 3. float-valued clouds, direct check of the clauses
-    float_search(ctx, 400 if th else 120)
+    float_search(ctx, 800 if th else 120)
     ctx.search_ran = True
     ctx.rule = ("closest points: every pair of segments with endpoints on the 3x3 grid (6561) plus seeded random lattice/half-lattice "
                 "segments (general, parallel, collinear, degenerate); clouds: 1-8 lattice points per side (3x3 grid, collinear, "
@@ -1010,7 +1041,7 @@ def direct_only_closest(ctx, segs):
         d = d2q((F(px), F(py)), (F(qx), F(qy)))
         scale = 1 + float(d2q(a0, b0)) + float(d2q(a0, a1)) + float(d2q(b0, b1))
         if not (0.0 <= sv <= 1.0 and 0.0 <= tv <= 1.0 and float(d) <= float(dmin) + 1e-9 * scale):
-            ctx.violation("closest:direct", "closest points of %r: distance^2 %r, true minimum %s" % ([fr(v) for v in s], float(d), fr(dmin)),
+            viol(ctx, "closest:direct", "closest points of %r: distance^2 %r, true minimum %s" % ([fr(v) for v in s], float(d), fr(dmin)),
                           {"kind": "closest", "segments": [fr(v) for v in s], "expected_min_dist2": fr(dmin), "observed": [sv, tv, px, py, qx, qy]})
             return
 
@@ -1030,7 +1061,7 @@ def replay(ctx, rec):
         else:
             results = list(real_run(c).results)
         for key, msg in direct_check(c, results, rel=1e-12 if kind == "run" else 1e-9)[:3]:
-            ctx.violation("%s:%s" % (rp.get("where", "run"), key), msg, {"kind": kind, "input": rp["input"], "clause": key,
+            viol(ctx, "%s:%s" % (rp.get("where", "run"), key), msg, {"kind": kind, "input": rp["input"], "clause": key,
                                                                          "observed": [describe(r) for r in results][:8]})
     else:
         run(ctx)
